@@ -9,8 +9,8 @@ meaning at a width `w`; at `w = 32` it is the meaning on Java `int`, at `w = 64`
 the C routes' `long`.
 
 * `jmap_X_spec32` — the emitted Java computes the 32-bit meaning (rows where this is false have a
-  `_refuted` theorem with a witness instead; those are defects of the table, see the check's
-  findings).
+  `_refuted` theorem with a witness instead: the two `Byte` rows, FOAM `Byte` being unsigned and
+  Java `byte` signed; see the check's findings).
 * `agree_within_31bit_X` — when the operands and the exact result fit the signed 32-bit range,
   the 32-bit meaning and the 64-bit meaning denote the same integer.  This is exactly the region
   in which the Java route can agree with the interpreter / C routes: FOAM `SInt` is 64 bit there
@@ -33,14 +33,8 @@ theorem jmap_BoolEQ_spec32 (a b : Bool) : JMap.BoolEQ a b = Spec.BoolEQ a b := b
 theorem jmap_BoolNE_spec32 (a b : Bool) : JMap.BoolNE a b = Spec.BoolNE a b := by
   cases a <;> cases b <;> rfl
 
-/-- full-strength statement for the two boolean constants -/
-def jmap_BoolConst_spec32_statement : Prop :=
-  JMap.BoolFalse = Spec.BoolFalse ∧ JMap.BoolTrue = Spec.BoolTrue
-/-- the table rows of `BoolFalse` and `BoolTrue` carry each other's keyword
-(`{FOAM_BVal_BoolFalse, GJ_Keyword, 0, "true"}`); reachable at `-Q0` only, the peephole pass
-replaces the two builtins by literals at every higher level -/
-theorem jmap_BoolConst_spec32_statement_refuted : ¬ jmap_BoolConst_spec32_statement := by
-  intro h; exact absurd h.1 (by decide)
+theorem jmap_BoolFalse_spec32 : JMap.BoolFalse = Spec.BoolFalse := rfl
+theorem jmap_BoolTrue_spec32 : JMap.BoolTrue = Spec.BoolTrue := rfl
 
 /-! ## characters -/
 theorem jmap_CharEQ_spec32 (a b : BitVec 16) : JMap.CharEQ a b = Spec.CharEQ a b := by
@@ -76,8 +70,7 @@ theorem jmap_CharNum_spec32 (a : BitVec 32) : JMap.CharNum a = Spec.CharNum 16 a
 theorem jmap_SInt0_spec32 : JMap.SInt0 = Spec.SInt0 := by decide
 theorem jmap_SInt1_spec32 : JMap.SInt1 = Spec.SInt1 := by decide
 theorem jmap_SIntMax_spec32 : JMap.SIntMax = Spec.SIntMax := by decide
-/-- `{FOAM_BVal_SIntMin, GJ_LitInt, 0, "0"}`: the least `int` is emitted as the literal `0` -/
-theorem jmap_SIntMin_spec32_refuted : JMap.SIntMin ≠ (Spec.SIntMin : BitVec 32) := by decide
+theorem jmap_SIntMin_spec32 : JMap.SIntMin = Spec.SIntMin := by decide
 
 /-! ## integer predicates -/
 theorem jmap_SIntIsZero_spec32 (a : BitVec 32) : JMap.SIntIsZero a = Spec.SIntIsZero a := by
@@ -205,15 +198,12 @@ theorem jmap_SIntBit_spec32 (a i : BitVec 32) (hi : i.toNat < 32) :
   rw [Bool.eq_iff_iff]; simp only [decide_eq_true_eq]
   omega
 
-/-- full-strength statement: the emitted `a ^ 0` is the one's complement -/
-def jmap_SIntNot_spec32_statement : Prop := ∀ a : BitVec 32, JMap.SIntNot a = Spec.SIntNot a
-/-- `{FOAM_BVal_SIntNot, GJ_Op, JCO_OP_XOr, "0"}` emits `a ^ 0`, the identity, where the
-interpreter and C compute `~a`; witness `a = 5`: Java 5, meaning -6 -/
-theorem jmap_SIntNot_spec32_statement_refuted : ¬ jmap_SIntNot_spec32_statement := by
-  intro h; exact absurd (h 5#32) (by decide)
-/-- what the row does compute -/
-theorem jmap_SIntNot_is_identity (a : BitVec 32) : JMap.SIntNot a = a := by
-  simp [JMap.SIntNot, JSem.bxor]
+/-- `{FOAM_BVal_SIntNot, GJ_Op, JCO_OP_XOr, "-1"}`: `a ^ -1` is the one's complement `-a - 1` -/
+theorem jmap_SIntNot_spec32 (a : BitVec 32) : JMap.SIntNot a = Spec.SIntNot a := by
+  apply BitVec.eq_of_toInt_eq
+  have h : InI32 (-a.toInt - 1) := by have := inI32_toInt a; unfold InI32 at *; omega
+  simp only [JMap.SIntNot, JSem.bxor, JSem.neg, Spec.SIntNot, xor_m1]
+  rw [toInt_ofInt32 h, toInt_not32]
 
 theorem jmap_SIntAnd_spec32 (a b : BitVec 32) : JMap.SIntAnd a b = Spec.SIntAnd a b := rfl
 theorem jmap_SIntOr_spec32 (a b : BitVec 32) : JMap.SIntOr a b = Spec.SIntOr a b := rfl
